@@ -161,6 +161,8 @@ def classify(out, spec, ref):
     out.label('style-' + spec['style'])
     if any(spec.get('own') or []):
         out.label('package-with-own-factory')
+    if any(spec.get('ignore_flag') or []):
+        out.label('package-says-ignore-false')
     if spec.get('base_depth', 1) > 1:
         out.label('nested-base-package')
     if dia:
@@ -200,7 +202,7 @@ def parts(tier):
         # its own factory function) and / or live in a nested base package
         core.Part('layout', execute,
                   strategy=engines.specs(
-                      events=True, own=True, dotted=True,
+                      events=True, own=True, dotted=True, flags=True,
                       styles=('legacy', 'registry', 'registry')),
                   cases=1500 if q else 40000, batch=250),
     ]
